@@ -13,33 +13,9 @@ import (
 )
 
 func init() {
-	register(&Rule{ID: "P-PREC-TABLE", Props: []string{"C10", "C01"}, Floor: 20,
-		Doc: "the binding-power table orders the tokens as the specification does: | < || < && < {== != < <= > >=} < {+ -} < {* × / ÷ // %} < flatten < object wildcard < filter < dot < ! < {[ , [*]}; members of a group are equal; every other token has power 0",
-		Run: rulePPrecTable})
-	register(&Rule{ID: "P-PRATT", Props: []string{"C10", "C01", "C17", "C18"}, Floor: 8,
-		Doc: "both Pratt loops continue while the next operator binds strictly tighter (>) than the caller's power, re-read the power of the current token after every iteration (no path skips the refresh), recurse for a binary operator with exactly the operator's own power (left associativity), and pass to projection() only the loop power or a table power above every binary operator",
-		Run: rulePPratt})
-	register(&Rule{ID: "P-ENTRY-POWER", Props: []string{"C10", "C19", "C01"}, Floor: 20,
-		Doc: "every call of the expression parser outside the Pratt loops uses either a constant entry power below the pipe (sub-expressions in brackets, arguments, let bindings and bodies restart at the loosest level) or, for prefix operators, a table power at or above every binary operator; nothing else (no power arithmetic)",
-		Run: rulePEntryPower})
-	register(&Rule{ID: "P-FUNC-TABLE", Props: []string{"C02", "C08"}, Floor: 41,
-		Doc: "every built-in name is dispatched to an arity helper whose signature, computed from the helper's body (numbers of arguments its success returns carry, position of the expression-reference test), equals the specification's signature for that function, builds the AST node(s) of that function, and an unknown name yields UnknownFunctionError",
-		Run: rulePFuncTable})
-	register(&Rule{ID: "P-CLOSER", Props: []string{"C04", "C10", "C19"}, Floor: 14,
-		Doc: "no construct is accepted without its closing token: every success return of parse, filter, selectArray, selectObject, index, the arity helpers and the parenthesis case is dominated by a test that the current/next token is the closer (EndToken, ], }, ), in); every hash field value is parsed only after a colon and every let binding after `=`",
-		Run: rulePCloser})
 	register(&Rule{ID: "P-DEAD-TOKEN-TEST", Props: []string{"C02", "C08", "C04", "C01"}, Floor: 30,
 		Doc: "no token test is unreachable: in a run of consecutive if statements on the same token field, a test that follows `if tok != X { return }` must be about X; inside `case X:` of a switch on a token field, a test of the same field against another token before any advance is dead (it was meant for the look-ahead token)",
 		Run: rulePDeadTokenTest})
-	register(&Rule{ID: "P-LOOP-THREAD", Props: []string{"C01", "C17"}, Floor: 20,
-		Doc: "inside a Pratt loop every assignment to the accumulated node builds on the previous node (as a child, left operand or argument); an assignment that ignores it silently drops everything parsed so far",
-		Run: rulePLoopThread})
-	register(&Rule{ID: "P-PROJ-SIBLINGS", Props: []string{"C01", "C17", "C04"}, Floor: 3,
-		Doc: "the selector tokens (binding power at or above the object wildcard, excluding prefix-only tokens) continued by the main Pratt loop are the same set that the projection parser accepts at its start and in its loop; every call of the index parser uses its is-a-projection result",
-		Run: rulePProjSiblings})
-	register(&Rule{ID: "P-SLICE-DEFAULTS", Props: []string{"C12", "C01"}, Floor: 6,
-		Doc: "in the slice parser an absent start/stop is 0/MaxInt for a positive step and MaxInt/MinInt for a negative step, absence is tracked by a flag set where the number was parsed (never inferred from the value), plain indices return is-a-projection=false and every form with a colon returns true",
-		Run: rulePSliceDefaults})
 }
 
 // ---------------------------------------------------------------- table extraction helpers
